@@ -28,7 +28,7 @@ class CommCase(BaseCase):
     assumptions = ASSUME_TRAIN[:2] + [
         'tensor contents are integer valued so every expected result is '
         'exact in the tensor dtype']
-    n_cases = {'quick': 1500, 'thorough': 40000}
+    n_cases = {'quick': 2500, 'thorough': 50000}
     chunk = {'quick': 25, 'thorough': 100}
 
     def legal(self, plan: dict[str, Any]) -> bool:
@@ -429,7 +429,7 @@ class NeoxCase(BaseCase):
         'C11/C18 are statements about kfac given the DeepSpeed/Megatron '
         'stubs', 'a checkpoint counts as complete only after every rank '
         'returned from state_dict() (outer-framework barrier)']
-    n_cases = {'quick': 160, 'thorough': 3000}
+    n_cases = {'quick': 260, 'thorough': 4000}
     chunk = {'quick': 5, 'thorough': 20}
     restarts = 0.0
 
